@@ -326,8 +326,19 @@ class NPProxy(object):
         return getattr(_np, name)
 
 
+def _global_fingerprint():
+    import random as _random
+    st = _np.random.get_state()
+    return (_random.getstate(), st[2], st[1][:4].tolist())
+
+
+def _bypass_error():
+    return HarnessUnsupported('randomness was drawn from the global random / numpy.random generators while the '
+                              'module-level names were substituted: the forking source does not control this code')
+
+
 @contextlib.contextmanager
-def installed(rng, modules=None):
+def installed(rng, modules=None, check_bypass=True):
     import random as _random
     import EoN.simulation as sim
     mods = modules or [sim]
@@ -339,6 +350,7 @@ def installed(rng, modules=None):
         m.random = rng
         if getattr(m, 'np', None) is _np:
             m.np = NPProxy(rng)
+    g0 = _global_fingerprint() if check_bypass else None
     try:
         yield rng
     finally:
@@ -346,6 +358,10 @@ def installed(rng, modules=None):
             m.random = r
             if n is not None:
                 m.np = n
+    if check_bypass and g0 != _global_fingerprint():
+        # the code under test drew from the global generators through some other path (e.g. `from random import random`):
+        # legitimate for the code, but then the forking source does not own the schedule -> the harness cannot decide.
+        raise _bypass_error()
 
 
 class Leaf(object):
@@ -371,10 +387,11 @@ def enumerate_paths(run, prefix=(), max_clocks=10 ** 9, max_leaves=200000, delay
     script = list(prefix)
     leaves = []
     pruned = 0.0
+    g0 = _global_fingerprint()
     while True:
         rng = ForkRNG(script, max_clocks=max_clocks, delays=delays, max_forks=max_forks)
         try:
-            with installed(rng):
+            with installed(rng, check_bypass=False):
                 out = run(rng)
             kind = 'done'
         except _Restart as r:
@@ -405,6 +422,8 @@ def enumerate_paths(run, prefix=(), max_clocks=10 ** 9, max_leaves=200000, delay
         if nxt is None:
             break
         script = [e['chosen'] for e in trace[:j]] + [nxt]
+    if g0 != _global_fingerprint():
+        raise _bypass_error()
     return leaves
 
 
